@@ -547,6 +547,8 @@ def _interp_returns(f, env, facts):
                     except Unsupported: continue
                 else: raise Unsupported(f'local {v["name"]} = {init.text()[:40]}')
             continue
+        if any(x.k == 'call' and (x.calleeq or '').split('::')[-1] in ('__assert_fail', '__assert', '_assert', 'abort') for x in st.walk()) and not any(x.k == 'return' for x in st.walk()):
+            continue          # an assert: no effect on what is returned (release builds compile it out)
         raise Unsupported(f'statement {st.k} in join')
     raise Unsupported('no return')
 
